@@ -169,6 +169,7 @@ def register(reg):
     MD.install_veneer_state(reg)
     MD.install_iterators(reg)
     MD.install_fstrings(reg)
+    MD.install_next(reg)
     from pyvc import models_spec
 
     models_spec.install(reg)
@@ -675,12 +676,112 @@ def register_nested(reg):
     )
 
 
+def register_loops(reg):
+    """visit_While / visit_For / visit_Break / visit_Continue inside a block of a try-interrupt statement.
+
+    Documentation: inside a block, `break` / `continue` that are lexically inside a loop OF THAT BLOCK are ordinary loop
+    control; only those not enclosed by a loop of the block act on the loop around the try-interrupt statement."""
+
+    cls_name = f"{CP}:ScenicToPythonTransformer"
+
+    def build(I, env, outer_kind):
+        nested = ["none", "while", "for"][MD.pick(I, 3, "statement before the break/continue in the loop body: nothing / a nested while / a nested for")]
+        ctl_kind = ["break", "continue"][MD.pick(I, 2, "break / continue")]
+        entry_in_loop = MD.pick(I, 2, "the loop itself is inside another loop of the block?") == 1
+        env.vars["_case"] = (outer_kind, nested, ctl_kind, entry_in_loop)
+        I.eng.input_syms.append(("case", C.Const(None), repr((outer_kind, nested, ctl_kind, entry_in_loop))))
+        marker = lambda nm: ast.Expr(ast.Name(nm, ast.Load()))  # noqa: E731
+
+        def loop(kind, body):
+            if kind == "while":
+                return ast.While(test=ast.Constant(True), body=PList(body), orelse=PList())
+            return ast.For(target=ast.Name("i", ast.Store()), iter=ast.Name("items", ast.Load()), body=PList(body), orelse=PList())
+
+        inner_ctl = ast.Break() if ctl_kind == "break" else ast.Continue()
+        ctl = ast.Break() if ctl_kind == "break" else ast.Continue()
+        body = []
+        if nested != "none":
+            body.append(loop(nested, [marker("inner_loop_body"), inner_ctl]))
+        body += [marker("between"), ctl]
+        node = loop(outer_kind, body)
+        self = PObj(repo_class(cls_name), tag="transformer")
+        self.fields.update(inTryInterrupt=True, inInterruptBlock=True, inLoop=entry_in_loop, usedBreak=False, usedContinue=False, inGuard=False)
+        cls = repo_class(cls_name)
+
+        def real(name, n):
+            return I.run_function(I.find_method(cls, name), [self, n], {}, None)
+
+        def visit(x):
+            if isinstance(x, PList):
+                out = []
+                for stmt in x.items:
+                    r = visit(stmt)
+                    out.extend(r.items if isinstance(r, PList) else [r])
+                return PList(out)
+            for ty, m in ((ast.Break, "visit_Break"), (ast.Continue, "visit_Continue"), (ast.While, "visit_While"), (ast.For, "visit_For")):
+                if isinstance(x, ty):
+                    return real(m, x)
+            return x
+
+        def generic_visit(n):
+            if isinstance(n, (ast.While, ast.For)):
+                n.body = visit(n.body)
+            return n
+
+        self.fields["visit"] = BuiltinFn("visit", visit)
+        self.fields["generic_visit"] = BuiltinFn("generic_visit", generic_visit)
+        env.vars.update(self=self, node=node)
+        env.vars["_ctl"] = (ctl, inner_ctl)
+
+    def post_for(kind):
+        def post(I, env, outcome):
+            eng = I.eng
+            name = f"compiler.ScenicToPythonTransformer.visit_{'While' if kind == 'while' else 'For'}"
+            outer_kind, nested, ctl_kind, entry_in_loop = env.vars["_case"]
+            self = env.vars["self"]
+            detail = f"`{ctl_kind}` in a `{outer_kind}` loop of a block, preceded by {'nothing' if nested == 'none' else 'a nested `' + nested + '` loop'}"
+            if outcome[0] != "return":
+                eng.check(f"{name}#ensures.compiles_without_error", False, detail=repr(outcome[1]))
+                return
+            new = outcome[1]
+            body = list(new.body.items) if isinstance(new.body, PList) else list(new.body)
+            want = ast.Break if ctl_kind == "break" else ast.Continue
+            # frame on the translator state
+            eng.check(f"{name}#ensures.inLoop_flag_has_its_entry_value_after_the_loop", self.fields["inLoop"] is entry_in_loop, detail=detail)
+            # loop control lexically inside this loop stays ordinary loop control, whatever precedes it
+            eng.check(f"{name}#ensures.loop_control_inside_a_loop_of_the_block_stays_plain_python_whatever_precedes_it", isinstance(body[-1], want), detail=f"{detail}; compiled to {ast.dump(body[-1]) if isinstance(body[-1], ast.AST) else body[-1]!r}")
+            if nested != "none":
+                ib = body[0].body
+                ib = list(ib.items) if isinstance(ib, PList) else list(ib)
+                eng.check(f"{name}#ensures.loop_control_inside_the_nested_loop_stays_plain_python", isinstance(ib[-1], want), detail=detail)
+            eng.check(f"{name}#ensures.no_block_conclusion_recorded_for_loop_control_inside_a_loop", self.fields["usedBreak"] is False and self.fields["usedContinue"] is False, detail=detail)
+
+        return post
+
+    for kind, meth in (("while", "visit_While"), ("for", "visit_For")):
+        reg.add(
+            C.Contract(
+                f"{cls_name}.{meth}",
+                params=dict(self=C.Const(None), node=C.Const(None)),
+                setup=(lambda k: lambda I, env: build(I, env, k))(kind),
+                post=post_for(kind),
+                inline=[f"ScenicToPythonTransformer.{m}" for m in ("visit_While", "visit_For", "visit_Break", "visit_Continue")],
+                replay=replay_loop_control,
+                bounded=True,
+                note="bounded: a loop inside a block of a try-interrupt statement whose body is [optional nested while/for ending in break/continue, a statement, break/continue]; "
+                "`visit`/`generic_visit` dispatch to the REAL visit_While / visit_For / visit_Break / visit_Continue",
+                properties=("C13",),
+            )
+        )
+
+
 _register_flat = register
 
 
 def register(reg):  # noqa: F811
     _register_flat(reg)
     register_nested(reg)
+    register_loops(reg)
 
 
 # ----------------------------------------------------------------------------------------------------
@@ -986,4 +1087,52 @@ def replay_nested_control(inputs, clause):
         acts = [a[ego][0] for a in sim.result.actions if a[ego]]
         if acts != want:
             return f"{what}: the agent's actions are {acts}; documented: {want}"
+    return None
+
+
+def replay_loop_control(inputs, clause):
+    """Real programs: break/continue after a nested loop inside a loop of a handler act on the handler's loop."""
+    import ast as _ast
+
+    import scenic
+    from scenic.core.simulators import DummySimulator
+
+    T = "simulation().currentTime"
+    progs = {}
+    for outer in ("while", "for"):
+        for nested in ("while", "for"):
+            head = "for i in range(1, 4):" if outer == "for" else "i = 0\n        while i < 3:\n            i += 1"
+            inner = "j = 0\n            while j < 2:\n                take 10*i + j\n                j += 1" if nested == "while" else "for j in range(2):\n                take 10*i + j"
+            for ctl, want in (("break", (100, 1, 10, 11, 20, 21, 5, 1, 1)), ("continue", (100, 1, 10, 11, 7, 20, 21, 30, 31, 7, 5, 1))):
+                tail = "if i == 2:\n                break" if ctl == "break" else "if i == 2:\n                continue\n            take 7"
+                src = (
+                    "behavior Foo():\n    while True:\n        take 100\n        try:\n            while True:\n                take 1\n"
+                    f"        interrupt when {T} == 2:\n            PLACEHOLDER\n            take 5\nego = new Object with behavior Foo\n"
+                )
+                block = f"{head}\n            {inner}\n            {tail}"
+                # re-indent the handler block (12 spaces)
+                lines = block.split("\n")
+                base = [lines[0]] + [l[8:] if l.startswith("        ") else l for l in lines[1:]]
+                src = src.replace("PLACEHOLDER", "\n            ".join(base))
+                progs[(outer, nested, ctl)] = (src, want)
+    order = list(progs)
+    try:
+        outer, nested, ctl, _ = _ast.literal_eval(inputs["case"])
+        key = (outer, nested if nested != "none" else "while", ctl)
+        order = [key] + [k for k in order if k != key]
+    except Exception:  # noqa
+        pass
+    for key in order:
+        src, want = progs[key]
+        what = f"`{key[2]}` after a nested `{key[1]}` loop inside a `{key[0]}` loop of an interrupt handler"
+        try:
+            sc = scenic.scenarioFromString(src)
+            scene, _ = sc.generate()
+            sim = DummySimulator().simulate(scene, maxSteps=len(want))
+        except Exception as e:  # noqa
+            return f"{what}: the program is refused with {type(e).__name__}: {e}"
+        ego = scene.objects[0]
+        acts = tuple(a[ego][0] if a[ego] else None for a in sim.result.actions)
+        if acts != want:
+            return f"{what}: the agent's actions are {acts}; documented: {want} (the {key[2]} acts on the handler's own loop)"
     return None
